@@ -24,9 +24,10 @@ import (
 )
 
 type vfC19HS struct {
-	w   *vfc19.World
-	now time.Time
-	res *vfh.Result
+	w    *vfc19.World
+	now  time.Time
+	res  *vfh.Result
+	auto []byte
 }
 
 type vfC19Rand struct{ r *rand.Rand }
@@ -68,8 +69,16 @@ func vfC19Reason(err error) string {
 }
 
 func (s *vfC19HS) Server(srv, host, authz string) vfc19.ServerObs {
+	key := s.w.HmacKey[srv]
+	if key == nil { // "auto-generated default secret": 32 random bytes, as ServerPeerIDAuth makes them
+		if s.auto == nil {
+			s.auto = make([]byte, 32)
+			rand.New(rand.NewSource(vfh.Seed() + 77)).Read(s.auto)
+		}
+		key = s.auto
+	}
 	hs := handshake.PeerIDAuthHandshakeServer{Hostname: host, PrivKey: s.w.SrvPriv(srv), TokenTTL: s.w.TokenTTL,
-		Hmac: hmac.New(sha256.New, s.w.HmacKey[srv])}
+		Hmac: hmac.New(sha256.New, key)}
 	var o vfc19.ServerObs
 	if err := hs.ParseHeaderVal([]byte(authz)); err != nil {
 		o.Reason, o.Detail = "parse", err.Error()
@@ -167,6 +176,9 @@ func TestVerifC19Replay(t *testing.T) {
 		return cur
 	}
 	if err := vfc19.Replay(mk, res, vfc19.Options{Profile: os.Getenv("VERIF_C19_KEYS"), MaxWalks: vfh.EnvInt("VERIF_C19_MAXWALKS", 0)}); err != nil {
+		t.Fatal(err)
+	}
+	if err := vfc19.SecretMatrix(mk, res, os.Getenv("VERIF_C19_KEYS")); err != nil {
 		t.Fatal(err)
 	}
 }
